@@ -216,6 +216,25 @@ func runAPI(op string, args []string) string {
 				return fmtErr(err, p)
 			}
 			return okp(renderVal(v), p, err)
+		case "getu4":
+			return fmt.Sprint(int(rjson.VerifGetu4(data)))
+		case "unescapeUnicodeChar":
+			dst := unhx(args[1])
+			o, n, ok := rjson.VerifUnescapeUnicodeChar(data, append(make([]byte, 0, len(dst)), dst...))
+			return fmt.Sprintf("%s %d %v", hx(o), n, ok)
+		case "skipFloatDec", "skipFloatExp":
+			p := int(atoi(args[1]))
+			var q int
+			var err error
+			if op == "skipFloatDec" {
+				q, err = rjson.VerifSkipFloatDec(data, p, len(data))
+			} else {
+				q, err = rjson.VerifSkipFloatExp(data, p, len(data))
+			}
+			if err != nil {
+				return fmtErr(err, q)
+			}
+			return fmt.Sprintf("ok %d", q)
 		case "fpReadFloat":
 			m, e, neg, tr, p, ok := rjson.VerifFPReadFloat(data)
 			return fmt.Sprintf("%d %d %v %v %d %v", m, e, neg, tr, p, ok)
